@@ -6,7 +6,9 @@ import vlib, gen_facts, f8cfacts, f8ctv
 
 LEVEL = 'translation_validation'
 THEOREMS = ['C13_tables_sorted', 'C13_message_rows', 'C13_group_rows', 'C13_fields_present', 'C13_domains_sorted', 'C13_nesting_preserved',
-            'C13_expansion_plain', 'C13_expansion_optional', 'C13_expansion_component', 'C13_finding_depth3', 'C13_finding_depth3_in_group']
+            'C13_expansion_plain', 'C13_expansion_optional', 'C13_expansion_component', 'C13_finding_depth3', 'C13_finding_depth3_in_group', 'C13_fixed_component_flags']
+# one count field reused by several messages: the valid families of C14 and its equal-key families (order / flag / component only)
+ALL_REUSE = f8ctv.VALID_REUSE + [f8ctv.fam_reuse_order, f8ctv.fam_reuse_flag, f8ctv.fam_reuse_component]
 STOCK = ['FIXT11.xml', 'FIX40.xml', 'FIX41.xml', 'FIX42.xml', 'FIX42PERF.xml', 'FIX42UTEST.xml', 'FIX43.xml', 'FIX44.xml']
 
 
@@ -17,7 +19,7 @@ def gen(rng, thorough):
         add(f8ctv.fam_types(rng, lite=True))
         add(f8ctv.fam_structured(rng))
         add(f8ctv.fam_random(rng))
-        add(f8ctv.fam_reuse_multi(rng))
+        add(f8ctv.fam_reuse_multi(rng, ALL_REUSE))
         add(f8ctv.fam_malformed(rng), False)
         return cases
     for _ in range(2):
@@ -31,7 +33,7 @@ def gen(rng, thorough):
     for _ in range(24):
         add(f8ctv.fam_random(rng))
     for _ in range(5):
-        add(f8ctv.fam_reuse_multi(rng))
+        add(f8ctv.fam_reuse_multi(rng, ALL_REUSE))
     for _ in range(24):
         add(f8ctv.fam_malformed(rng), False)
     for name in STOCK:
